@@ -171,3 +171,37 @@ Proof.
   - destruct (h_decode r) as [rest|] eqn:E; cbn [bind] in H; [|discriminate].
     injection H as <-. cbn [length]. rewrite (IH r rest E). lia.
 Qed.
+
+(* ---- the layout the library itself writes: rowInfos in row order, one per row ---- *)
+(* when the declared indexes are 0, 1, 2, ... in file order, reading by declared index is reading by position: the
+   storage round trip of C01 (table_storage_roundtrip, stated on the concatenation of the tiles) is what the repaired
+   reader returns *)
+Theorem row_map_sequential_lemma : forall t n, map fst (stored_rows t) = map N.of_nat (seq 0 n) ->
+  forall r col, N.of_nat r < nrows t ->
+  storage_buffer t (N.of_nat r) col = Ok (cell_at (nth_error (storage_buffers t) r) col).
+Proof.
+  intros t n Hk r col Hlt.
+  assert (Hnd : NoDup (map fst (stored_rows t))).
+  { rewrite Hk. apply FinFun.Injective_map_NoDup; [intros a b H; lia|apply seq_NoDup]. }
+  rewrite storage_buffer_spec by exact Hnd. unfold storage_buffers.
+  destruct (nth_error (stored_rows t) r) as [[k cs]|] eqn:E.
+  - assert (Hkr : k = N.of_nat r).
+    { pose proof (map_nth_error fst r (stored_rows t) E) as H. rewrite Hk in H. cbn [fst] in H.
+      assert (Hr : (r < n)%nat).
+      { destruct (Nat.lt_ge_cases r n) as [Hl|Hg]; [exact Hl|]. exfalso.
+        assert (Hnone : nth_error (map N.of_nat (seq 0 n)) r = None) by (apply nth_error_None; rewrite map_length, seq_length; exact Hg).
+        rewrite Hnone in H. discriminate. }
+      assert (Hs : nth_error (seq 0 n) r = Some r).
+      { rewrite (nth_error_nth' (seq 0 n) 0%nat) by (rewrite seq_length; exact Hr). now rewrite seq_nth. }
+      rewrite (map_nth_error N.of_nat r (seq 0 n) Hs) in H. injection H as <-. reflexivity. }
+    subst k. rewrite (in_aget N cells N.eqb Neqb_spec' _ _ _ Hnd (nth_error_In _ _ E)).
+    now rewrite (map_nth_error snd r (stored_rows t) E).
+  - assert (Hlen : (length (stored_rows t) <= r)%nat) by (now apply nth_error_None).
+    assert (Hn : (n <= r)%nat).
+    { rewrite <- (map_length fst), Hk, map_length, seq_length in Hlen. exact Hlen. }
+    rewrite aget_none; [|exact Neqb_spec'|].
+    + destruct (N.ltb_spec (N.of_nat r) (nrows t)); [|lia].
+      assert (Hnone : nth_error (map snd (stored_rows t)) r = None) by (apply nth_error_None; now rewrite map_length).
+      now rewrite Hnone.
+    + rewrite Hk. intros Hin. apply in_map_iff in Hin as (x & Hx & Hin). apply in_seq in Hin. lia.
+Qed.
